@@ -21,7 +21,12 @@ from checks import _tp_refs as tp
 
 PROPERTY = "C07"
 RULE = ("cells = generic models (backing dense/csr/csc/function pair x domain geometry kind x range geometry kind x "
-        "shape; function-backed image models: operator kind L.X.R / shape-agnostic shift+cumsum / transposition x domain "
+        "shape; degenerate-shape facet: both sides column images (d, 1) - default tuple, Image2D order C / F, Continuous2D, the "
+        "two sides independently - whose function values are 2-D under a matrix of the documented shape (range_dim, "
+        "domain_dim), every backing; matrix-backed image models: a stored dense / csr / csc matrix L acting on the columns "
+        "of the domain image, X -> L @ X, with L non-symmetric square on square images / square on non-square images / "
+        "non-square, x domain image kind x range image kind (adjoint must be Y -> L^T @ Y; forward, adjoint, T.forward, "
+        "T.adjoint and all input representations judged, get_matrix not); function-backed image models: operator kind L.X.R / shape-agnostic shift+cumsum / transposition x domain "
         "image kind x range image kind (default, Image2D order C, Image2D order F, Continuous2D - the two sides "
         "independently) x image shapes square / non-square, equal / different on the two sides, and image -> vector / "
         "vector -> image operators with the vector side default / Continuous1D) + shipped linear test "
@@ -52,7 +57,9 @@ BOUND = {
     "quick": "generic 1-D: 4 backings x 10x10 geometry kinds x shapes {4x5, 3x3}; + 11 re-represented 1-D kinds (2 Step "
              "mean spellings, 8 Step-full projection spellings, Discrete by names) on domain / range / both sides against "
              "{default} x 4 backings x shape 4x5; + numpy.int64 arguments: 6x6 kinds taking integers x {dense, function} x "
-             "4x5; generic 2-D (function pair): 6x6 image "
+             "4x5; column images: 4x4 column kinds x 4 backings x shapes {4x5, 3x3} (+ 2 kind pairs x {dense, function} with "
+             "numpy.int64 shape entries); matrix-backed image models: {dense, csr, csc} x 4x4 canonical image kinds x "
+             "{L 3x3 on 3x3 images, L 3x3 on 3x2 images, L 3x2 on 2x3 images}; generic 2-D (function pair): 6x6 image "
              "geometry kinds (4 canonical + Image2D order 'c', 'f') x {L.X.R: (2x3)->(3x2), (2x3)->(2x3), (3x3)->(3x3); "
              "shift: 2x3, 3x3; transposition: 2x3, "
              "3x3} + image<->vector {(2x3)->4, (3x3)->2, 4->(2x3), 2->(3x3)} x 6 image kinds x 2 vector kinds; the same "
@@ -66,7 +73,8 @@ BOUND = {
              "and on T.forward/T.adjoint of "
              "the generic cells; one value catalogue (seed % 3)",
     "thorough": "as quick with generic 1-D shapes {4x5, 5x4, 3x3, 6x6, 8x7}, the 11 re-represented 1-D kinds against all 10 "
-                "canonical kinds x shapes {4x5, 3x3}, numpy.int64 1-D cells x 4 backings x {4x5, 3x3}, generic 2-D L.X.R 6 "
+                "canonical kinds x shapes {4x5, 3x3}, numpy.int64 1-D cells x 4 backings x {4x5, 3x3}, column images on all 5 "
+                "shapes, matrix-backed image models with 6x6 image kinds x 6 (L, image) shapes, generic 2-D L.X.R 6 "
                 "shape pairs, shift 5 "
                 "shapes, transposition 3 shapes, image<->vector 3+3 shapes, all with 6x6 image kinds x {int, numpy.int64}, "
                 "Deconvolution1D dim {7,8,12}, PSF size {3,4,5,6,dim}, Deconvolution2D "
@@ -84,8 +92,14 @@ ASSUMPTIONS = [
     "step, where they coincide with the mean)",
     "equality is decided at 1e-9 relative on dense matrices of dimension <= 64",
     "the identity is checked in the Euclidean inner product of the parameter vectors (as the statement says)",
-    "matrix-backed models are built with a matrix of shape (range_dim, domain_dim); a smaller matrix that happens to "
-    "broadcast over the columns of an image-shaped function value is outside the documented use and not judged",
+    "matrix-backed models with 1-D or column-image geometries are built with a matrix of shape (range_dim, domain_dim); "
+    "a column image (d, 1) on one side is always paired with a column image on the other (M @ X of a column image is a "
+    "column image; pairing it with a geometry whose function values are vectors would not be a well-formed model)",
+    "a stored matrix L (r2 x r) given with image geometries (r, c) -> (r2, c) is accepted by the constructor (it makes "
+    "no shape demand) and acts on the columns of the image, forward(x) = fun2par(L @ par2fun(x)); the statement's "
+    "inner-product identity and transposed-model clauses are judged there (the adjoint is Y -> L^T @ Y), but its "
+    "get_matrix() / T.get_matrix() are NOT judged: get_matrix is documented to hand back the stored matrix for the "
+    "geometry classes whose maps only reshape, and that matrix is r2 x r, not range_dim x domain_dim",
     "the dense reference covers identity-like, mapped (flip/scale), step-expansion (documented step membership and "
     "mean projection) and image geometry kinds; for KL expansions "
     "the geometry maps are not re-implemented here (forward is then only compared with get_matrix/T/its other "
@@ -115,6 +129,14 @@ KINDS1 = ["default", "Continuous1D", "Discrete", "Image2D-visual", "Mapped-flip"
 KINDS1_REP = (["Step/Mean", "Step/MEAN"]
               + ["Step-full/%s" % p for p in ("Mean", "MEAN", "max", "Max", "MAX", "min", "Min", "MIN")]
               + ["Discrete/names"])
+# degenerate-but-legal image shapes as 1-D kinds: a COLUMN image of shape (d, 1).  Its function values are 2-D arrays
+# (par2fun reshapes the d parameters to (d, 1) in either order), its parameter map is the identity, and a matrix of the
+# documented shape (range_dim, domain_dim) acts on such a function value exactly as on the vector: M @ X is (m, 1),
+# M^T @ Y is (n, 1).  Every convention about the orientation of a 2-D function value inside forward / adjoint
+# (left or right multiplication, transposed or not) is decided by these cells on non-square and non-symmetric M.
+KINDS1_COL = ["default2D-col", "Image2D-col-C", "Image2D-col-F", "Continuous2D-col"]
+# (both sides are column images: M @ X of a column image is a column image - with a 1-D geometry on the other side the
+#  stored matrix would hand a 2-D value to a geometry whose function values are vectors: not a well-formed model)
 KINDS2 = ["default2D", "Image2D-C", "Image2D-F", "Continuous2D"]
 # Image2D(order=...): 'C' row-major, 'F' column-major; the string is handed to numpy, which reads it
 # case-insensitively - the lower-case spellings are accepted and name the same two layouts
@@ -135,7 +157,7 @@ def _base(kind):
 
 # kinds whose par2fun/fun2par may be applied twice without changing the result (re-applying is a no-op)
 _REAPPLY_OK = {"default", "Continuous1D", "Discrete", "Image2D-visual", "Step-full", "default2D", "Image2D-C",
-               "Image2D-F", "Continuous2D"}
+               "Image2D-F", "Continuous2D"} | set(KINDS1_COL)
 # documented storage order of the image kinds (row-major unless order="F" is asked for, in either case)
 _ORDER2 = {"default2D": "C", "Image2D-C": "C", "Image2D-F": "F", "Continuous2D": "C", "Image2D-c": "C",
            "Image2D-f": "F"}
@@ -194,6 +216,16 @@ def cells(tier, seed):
                 pairs = [(sk, sk)] + [(sk, o) for o in others] + [(o, sk) for o in others]
                 for (dk, rk) in pairs:
                     yield {"fam": "gen1", "backing": b, "m": m, "n": n, "dk": dk, "rk": rk, "cat": k}
+    # degenerate-shape facet: column images (d, 1) - 2-D function values under a matrix of shape (range_dim, domain_dim) -
+    # on both sides (full product of the four column kinds, the two sides independently), every backing and shape
+    for b in BACKINGS:
+        for (m, n) in shapes1:
+            for dk in KINDS1_COL:
+                for rk in KINDS1_COL:
+                    yield {"fam": "gen1", "backing": b, "m": m, "n": n, "dk": dk, "rk": rk, "cat": k}
+    for (dk, rk) in [("Image2D-col-C", "Image2D-col-F"), ("default2D-col", "Continuous2D-col")]:
+        for b in (("dense", "func") if not thorough else BACKINGS):
+            yield {"fam": "gen1", "backing": b, "m": 4, "n": 5, "dk": dk, "rk": rk, "cat": k, "ints": "np64"}
     # integer-type facet, 1-D kinds: every integer constructor argument of both geometries as numpy.int64
     for b in (("dense", "func") if not thorough else BACKINGS):
         for (m, n) in (shapes1[:1] if not thorough else [(4, 5), (3, 3)]):
@@ -209,8 +241,7 @@ def cells(tier, seed):
     # three operator kinds: "LXR" X -> L X R (shape-aware), "shift" X -> a X + b roll_rows + c roll_cols + d cumsum_rows
     # (same shape on both sides; defined for an image of ANY shape, so a geometry handing over a wrongly shaped image
     # is answered with wrong numbers, not with an exception), "transpose" X -> X^T (a view of its input)
-    # (a stored matrix whose shape is not (range_dim, domain_dim) - applied to the columns of an image by accident of
-    #  numpy broadcasting - is not a matrix-backed linear model in the documented sense: no matrix backing here)
+    # (matrix-backed image models - a stored matrix acting on the columns of an image - follow further below)
     # image kinds: the canonical four plus every accepted spelling of Image2D's order (the full product on both sides);
     # integer-type facet: the shape entries (and vector sizes) as numpy.int64 - canonical kinds in the quick tier,
     # every kind in the thorough tier
@@ -227,6 +258,18 @@ def cells(tier, seed):
                         if ints != "py":
                             cell["ints"] = ints
                         yield cell
+    # 2-D, MATRIX-backed: a stored matrix L (r2 x r; dense / csr / csc) acting on the columns of the domain image,
+    # X (r x c) -> L @ X (r2 x c) - the constructor accepts it (no shape demand), forward is L @ par2fun(x); its adjoint
+    # is Y -> L^T @ Y.  Operator orientation facet: L non-symmetric square on square images (any other orientation of
+    # the product is defined too, and silently different), L square on non-square images, L non-square.
+    # get_matrix() of these models is not judged (see ASSUMPTIONS); forward / adjoint / T.forward / T.adjoint are.
+    lx_shapes = [(3, 3, 3, 3), (3, 2, 3, 2), (2, 3, 3, 3)] + ([(3, 2, 2, 2), (4, 4, 4, 4), (2, 4, 2, 4)] if thorough else [])
+    for b in ("dense", "csr", "csc"):
+        for (r, c, r2, c2) in lx_shapes:
+            for dk in (kinds2 if thorough else KINDS2):
+                for rk in (kinds2 if thorough else KINDS2):
+                    yield {"fam": "gen2", "backing": b, "op": "LX", "r": r, "c": c, "r2": r2, "c2": c2,
+                           "dk": dk, "rk": rk, "cat": k}
     # shipped test problems: every representation on forward and adjoint; on the maps of the transposed model too in
     # the thorough tier (the transposed model is LinearModel machinery, covered with every representation above)
     tp_reps = "full" if thorough else "fwd-adj"
@@ -342,6 +385,12 @@ def make_geom(kind, d, ints="py"):
     if kind.split("/")[0] in ("Step", "Step-full"):
         kw = {"fun2par_projection": kind.split("/")[1]} if "/" in kind else {}
         return g.StepExpansion(np.linspace(0, 1, d), n_steps=I(2 if kind.split("/")[0] == "Step" else d), **kw)
+    if kind == "default2D-col":
+        return (I(d), I(1))
+    if kind in ("Image2D-col-C", "Image2D-col-F"):
+        return g.Image2D((I(d), I(1)), order=kind[-1])
+    if kind == "Continuous2D-col":
+        return g.Continuous2D((I(d), I(1)))
     if kind == "default2D":
         return tuple(I(s) for s in d)
     if kind in ("Image2D-C", "Image2D-F", "Image2D-c", "Image2D-f"):
@@ -406,6 +455,10 @@ def build(cell):
         fwd, adj = _gen2_pair(cell)
         dg = make_geom(cell["dk"], (cell["r"], cell["c"]) if cell["c"] else cell["r"], ints)
         rg = make_geom(cell["rk"], (cell["r2"], cell["c2"]) if cell["c2"] else cell["r2"], ints)
+        if cell["backing"] != "func":       # op "LX": the matrix itself is handed over, the library derives both maps
+            Lm = refs.full_matrix(cell["r2"], cell["r"], k)
+            model = LinearModel(_wrap_matrix(Lm, cell["backing"]), range_geometry=rg, domain_geometry=dg)
+            return model, "LinearModel", "backing=matrix,geometry=image"
         model = LinearModel(fwd, adj, range_geometry=rg, domain_geometry=dg)
         return model, "LinearModel", "backing=function,geometry=image"
     if fam == "deconv1d":
@@ -449,6 +502,9 @@ def _gen2_pair(cell):
         Lm = refs.full_matrix(r2, r, k)
         Rm = refs.full_matrix(c, c2, k + 1)
         return (lambda X: Lm @ X @ Rm), (lambda Y: Lm.T @ Y @ Rm.T)
+    if op == "LX":           # a matrix acting on the columns of the image; c2 == c
+        Lm = refs.full_matrix(r2, r, k)
+        return (lambda X: Lm @ X), (lambda Y: Lm.T @ Y)
     if op == "shift":
         a, b, g, d = [(1.0, 0.5, 2.0, 0.25), (0.5, 2.0, -1.0, 0.75), (-1.5, 1.0, 0.25, 0.5)][k]
 
@@ -598,7 +654,7 @@ def _bk(b):
     return "function" if b == "func" else "matrix"
 
 
-_IDENTITY = ("default", "Continuous1D", "Discrete", "Image2D-visual", "Step-full")
+_IDENTITY = ("default", "Continuous1D", "Discrete", "Image2D-visual", "Step-full") + tuple(KINDS1_COL)
 
 
 def _gcat(cell):
@@ -745,6 +801,9 @@ def check_model(res, model, comp, facet, cell):
     # generic models are built here from callables defined on the geometries' documented function shapes (and every
     # geometry kind used has both maps): they have nothing to refuse; a shipped test problem may refuse
     strict = cell["fam"] in ("gen1", "gen2", "genview")
+    # a stored matrix acting on the columns of an image is not of shape (range_dim, domain_dim): get_matrix() hands the
+    # stored matrix back (documented for the identity-like geometry classes) - not judged, see ASSUMPTIONS
+    judge_matrix = not (cell["fam"] == "gen2" and matrix_backed)
     reps = REPS
     t_reps = REPS if cell.get("reps", "full") == "full" else REPS[:1]
     dgeom, rgeom = model.domain_geometry, model.range_geometry
@@ -903,7 +962,7 @@ def check_model(res, model, comp, facet, cell):
             _check_representations(res, "T.forward", T0.forward, m, rgeom, TF, w, strict, t_reps)
         if TA is not None:
             _check_representations(res, "T.adjoint", T0.adjoint, n, dgeom, TA, v, strict, t_reps)
-        if t_forward_ok:
+        if t_forward_ok and judge_matrix:
             try:
                 TM = _dense(T0.get_matrix())
                 res.evaluations += 1
@@ -922,7 +981,7 @@ def check_model(res, model, comp, facet, cell):
 
     # ---- (2) matrix representation ----------------------------------------------------------------
     try:
-        A = _dense(model.get_matrix())
+        A = _dense(model.get_matrix()) if judge_matrix else None
     except Exception as e:
         A = None
         res.refused += 1
